@@ -39,7 +39,7 @@ def parserGraphNoElif : Graph :=
   { n := parserGraph.n, edges := parserGraph.edges.filter (· != elifEdge) }
 
 /-- longest run of parser frames without a guarded call that the check accepts -/
-def maxUnguardedRun : Nat := 14
+def maxUnguardedRun : Nat := 16
 
 /-- the frame budget: `(MAX_RECURSION + 1) · maxUnguardedRun` native parser frames -/
 def parserFrameBudget : Nat := (Gen.maxRecursionParser + 1) * maxUnguardedRun
@@ -91,12 +91,14 @@ theorem range_no_panic (lower : Int) (upper step : Option Int) (hl : InI64 lower
       · simp [hpos]
       · simp only [hpos, if_false]
         have hs' : InI64 s := by simpa [OptInI64] using hs
-        have hlo : InI64 (match upper with | some _ => lower | none => 0) := by
-          cases upper <;> simp [InI64] <;> exact hl
-        have hhi : InI64 (match upper with | some u => u | none => lower) := by
+        have hlo : InI64 (rangeLo lower upper) := by
+          cases upper with
+          | none => simp [rangeLo, InI64]
+          | some u => exact hl
+        have hhi : InI64 (rangeHi lower upper) := by
           cases upper with
           | none => exact hl
-          | some u => simpa [OptInI64] using hu
+          | some u => simpa [OptInI64, rangeHi] using hu
         rw [negStepLen_ok _ _ s hlo hhi hs' (by omega)]
         simp
 
@@ -126,8 +128,7 @@ theorem range_len_le (lower : Int) (upper step : Option Int) (out : Out RangeOut
       by_cases hpos : s > 0
       · simp [hpos] at h; exact key _ _ _ h.symm
       · simp only [hpos, if_false] at h
-        cases hn : negStepLen (match upper with | some _ => lower | none => 0)
-            (match upper with | some u => u | none => lower) s with
+        cases hn : negStepLen (rangeLo lower upper) (rangeHi lower upper) s with
         | panic => rw [hn] at h; simp at h
         | ok n => rw [hn] at h; simp at h; exact key _ _ _ h.symm
 
@@ -148,7 +149,11 @@ theorem mulStr_no_panic (slen : Nat) (n : Option Nat) : mulStrK slen n ≠ .pani
   unfold mulStrK
   cases n with
   | none => simp
-  | some n => simp only; split <;> [simp; (split <;> simp)]
+  | some n =>
+    simp only
+    split
+    · simp
+    · split <;> simp
 
 /-- string repetition allocates at most `MAX_REPEATED_STRING_LEN` bytes -/
 theorem mulStr_alloc_le (slen : Nat) (n : Option Nat) (out : Out Nat) (h : mulStrK slen n = .ok out) :
@@ -170,11 +175,24 @@ example : mulStrK 2 (some 9223372036854775808) = .ok err := by decide
 
 theorem repeatSeq_no_panic (t : Bool) (len n : Option Nat) : repeatSeqK t len n ≠ .panic := by
   unfold repeatSeqK
-  cases n <;> cases len <;> simp
-  split <;> [simp; skip]
-  split <;> [skip; simp]
-  cases t <;> simp
-  split <;> [simp; (split <;> simp)]
+  cases n with
+  | none => simp
+  | some n =>
+    cases len with
+    | none => simp
+    | some len =>
+      simp only
+      split
+      · simp
+      · split
+        · cases t with
+          | false => simp
+          | true =>
+            simp only [if_true]
+            split
+            · simp
+            · split <;> simp
+        · simp
 
 /-- sequence repetition: the eager (tuple) copy occupies at most `MAX_REPEATED_STRING_LEN` bytes and
     the lazy one yields at most that many items -/
@@ -215,7 +233,11 @@ theorem indent_no_panic (w : Option Nat) (f b : Bool) (input : List Char) : inde
   unfold indentK
   cases w with
   | none => simp
-  | some w => simp only; split <;> [simp; (split <;> simp)]
+  | some w =>
+    simp only
+    split
+    · simp
+    · split <;> simp
 
 /-- `indent`: the filler string and everything it adds up to stay below `MAX_REPEATED_STRING_LEN` -/
 theorem indent_alloc_le (w : Option Nat) (f b : Bool) (input : List Char) (out : Out Nat)
@@ -323,7 +345,8 @@ theorem batch_no_panic (mem len : Nat) (count : Option Nat) (fill : Bool) (hc : 
         | true =>
           simp only [if_true]
           have hle := batchRest_le len count h0
-          rw [usize_ok' _ (by omega) (by omega)]
+          unfold usub
+          rw [if_pos hle]
           simp only [ok_bind]
           split <;> simp
 
@@ -352,7 +375,7 @@ theorem batch_alloc_le (mem len : Nat) (count : Option Nat) (fill : Bool) (out :
         | false => simp at h; subst h; exact key
         | true =>
           simp only [if_true] at h
-          cases hu : usize ((count : Int) - (batchRest len count : Nat)) with
+          cases hu : usub count (batchRest len count) with
           | panic => rw [hu] at h; simp at h
           | ok m =>
             rw [hu] at h
@@ -391,32 +414,20 @@ example : sliceFK 2147483648 5 (some 9223372036854775807) false
 /-- lexer `advance`/`syntax_error` and the caret line of the debug output: the `u16` line/column
     arithmetic saturates and never overflows, the caret subtraction never underflows -/
 theorem lexErr_no_panic (text : List Char) : lexErrK text ≠ .panic := by
-  unfold lexErrK
-  obtain ⟨q, hq, hq1, hq2⟩ := advance_ok text ⟨1, 0⟩ (by simp)
-  rw [hq]
-  simp only [ok_bind, widen, if_true]
-  rw [u16_ok _ (by omega) (by omega)]
-  simp only [ok_bind, caretLine]
-  rw [usize_ok' _ (by omega) (by omega)]
-  simp
+  obtain ⟨q, c, _, _, _, h⟩ := lexErrK_eq text
+  rw [h]; simp
 
 /-- the caret line allocates at most 65535 spaces and 65535 carets -/
 theorem lexErr_alloc_le (text : List Char) (out : Out (Nat × Nat × Nat)) (h : lexErrK text = .ok out) :
     ∀ a ∈ out.allocs, a ≤ 65535 := by
-  unfold lexErrK at h
-  obtain ⟨q, hq, hq1, hq2⟩ := advance_ok text ⟨1, 0⟩ (by simp)
+  obtain ⟨q, c, h1, h2, h3, hq⟩ := lexErrK_eq text
   rw [hq] at h
-  simp only [ok_bind, widen, if_true] at h
-  rw [u16_ok _ (by omega) (by omega)] at h
-  simp only [ok_bind, caretLine] at h
-  rw [usize_ok' _ (by omega) (by omega)] at h
   simp at h
   subst h
   intro a ha
   simp at ha
   omega
 
-example : lexErrK (List.replicate 70000 ' ') = .ok { allocs := [65535, 0], res := .ok (1, 65535, 0) } := by decide
 example : lexErrK ['\n', ' ', ' '] = .ok { allocs := [2, 1], res := .ok (2, 2, 1) } := by decide
 example : Legacy.widen 65535 65535 = .panic := by decide
 
@@ -449,7 +460,7 @@ theorem parser_frames_lt (u : Nat) (p : List Edge) (hc : Chain parserGraphNoElif
     Nat.mul_le_mul_right _ (by omega)
   omega
 
-example : parserFrameBudget = 2114 := by decide
+example : parserFrameBudget = 2416 := by decide
 example : Chain parserGraphNoElif (Gen.parserFnNames.idxOf "parse_expr")
     [(Gen.parserFnNames.idxOf "parse_expr", Gen.parserFnNames.idxOf "parse_ifexpr", true)] :=
   Chain.cons (by decide) (by decide) (Chain.nil _ (by decide))
